@@ -479,6 +479,8 @@ def run(ctx):
     ctx.extra["stale_table_rows"] = len(stale)
     r2(ctx, reach_load, reach_scan)
     r3(ctx, reach)
+    ctx.rule("R5", "scanner loops over user text make progress: every way round a `while let Some(i) = text[base..].find(..)` loop moves base past base + i")
+    r5(ctx, reach)
 
 
 GUARDS = {}
@@ -1083,3 +1085,48 @@ def g_cycle_visitors(ctx):
     c12.r3(sub, bearing)
     bad = [o["key"] for o in sub.obligations if not o["ok"]]
     return not bad, "cycle visitors cover all same-node operators" if not bad else "uncovered: %s" % bad
+
+
+def r5(ctx, reach):
+    """Besides recursion (R3) the other way to hang on a YAML rule is a scanning loop that stops advancing.  The loops that restart a
+    search at a computed position are found structurally (a `find`/`position` in a loop whose receiver is `text[base..]` with a
+    non-constant base) and executed symbolically over affine forms (sgcheck/affine.py): on every path round the loop
+    base' - base - i must be a non-negative combination with a positive part."""
+    from .. import affine
+    from ..query import loop_of
+    prog = ctx.prog
+    n = 0
+    for fid in sorted(reach):
+        f0 = prog.fns.get(fid)
+        if f0 is None or f0.is_closure:
+            continue
+        if not any(c.name in ("find", "position", "rfind") and f0.in_loop(c.bb) for c in f0.calls):
+            continue
+        f = f0   # helpers stay calls (their results are opaque non-negative symbols); inlining would multiply the paths
+        for c in f.calls:
+            if c.name not in ("find", "position", "rfind") or c.bb not in f.live_blocks or not f.in_loop(c.bb) or not c.args or c.args[0][0] == "k":
+                continue
+            idx = [o.ref for o in f.trace_operand(c.args[0]) if o.kind == "call" and o.ref.name == "index" and len(o.ref.args) == 2]
+            if not idx:
+                continue
+            aggs = [o.ref for o in f.trace_operand(idx[0].args[1]) if o.kind == "agg" and str(o.ref[2][1].get("adt", "")).endswith("ops::range::RangeFrom")]
+            if not aggs or aggs[0][2][2][0][0] == "k":
+                continue
+            n += 1
+            ab = aggs[0][0]
+            scc = {b for b in f.reachable_from(ab) if ab in f.reachable_from(b)}
+            hdr = [b for b in scc if all(f.dominates(b, x) for x in scc)]
+            key = "%s/loop restarting `%s` at a computed position" % (f0.id, c.name)
+            if len(hdr) != 1:
+                ctx.ob("R5", key, False, "cannot identify the loop header (%s)" % hdr, where=f0.loc(c.line))
+                continue
+            ex = affine.LoopExec(f, c, aggs[0][2][2][0], aggs[0][0], aggs[0][1])
+            res = ex.run(hdr[0])
+            probs = sorted({p for _, form in res for p in [affine.progress_problems(form)] if p})
+            ok = bool(res) and not probs
+            ctx.ob("R5", key, ok,
+                   "%d path(s) round the loop; on each the restart position grows by more than the offset of the hit" % len(res) if ok else
+                   ("no path round the loop could be followed" if not res else
+                    "on some path round the loop %s: with a suitable text the search finds the same position again and the loop never ends (a rule file's fix/message hangs ast-grep)" % "; ".join(probs)),
+                   where=f0.loc(c.line), facts={"paths": len(res)})
+    ctx.floor("R5", "scanner loops restarting a search at a computed position", n, 1)
